@@ -84,6 +84,14 @@ struct vbi_decoder {
 	double			wss_time;
 
 	vbi_program_id		vps_pid;
+
+	/* Network identification by VPS, packet 8/30 format 1 and 2,
+	   indexed by vbi_cni_type. Each has its own repeat cycle (0 idle,
+	   1 CNI changed, 2 announced) and remembers the CNI it announced
+	   last, so a transmission error on one of them announces nothing.
+	   (vbi_network.cycle is for XDS.) */
+	int			cni_cycle[VBI_CNI_TYPE_8302 + 1];
+	int			cni_announced[VBI_CNI_TYPE_8302 + 1];
 };
 
 #ifndef VBI_DECODER
